@@ -35,7 +35,6 @@ sys.set_int_max_str_digits(0)        # exact rationals coming back from Coq can 
 C_LIGHT = 299792458.0
 N1 = 1.468
 LOG10E10 = 10 * math.log10(math.e)
-F10 = 'F10-duplicate-lumped-position'
 
 
 # ------------------------------------------------------------------ small helpers
@@ -466,7 +465,7 @@ def oracle_fiber(ctx, case, obs):
             for j, f in enumerate(spec['f']))
         ctx.violation('budget', f"channel {i} ({spec['f'][i]:.6e} Hz) attenuated by {got:.9f} dB, budget "
                       f"att_in+con_in+L*alpha+lumped+con_out = {bud:.9f} dB", cs, observed_db=got, expected_db=bud,
-                      duplicate_positions=dup, dup_explained=bool(expl))
+                      duplicate_positions=dup, f10_regression_signature=bool(expl))
     for i in range(len(spec['f'])):
         if obs['own_cd'] is not None and not close(af['cd'][i], b4['cd'][i] + obs['own_cd'][i], 1e-12):
             ctx.violation('cd_add', f"channel {i}: CD after {af['cd'][i]} != before {b4['cd'][i]} + span {obs['own_cd'][i]}", cs)
@@ -636,7 +635,7 @@ def drive_path(ctx, case, built):
                     bad = True
                     ctx.violation('budget', f"{el.uid} channel {j}: attenuated by {got:.9f} dB, budget {bud:.9f} dB", cs,
                                   observed_db=got, expected_db=bud, duplicate_positions=positions_dup(par.get('lumped_losses', [])),
-                                  dup_explained=False)
+                                  f10_regression_signature=False)
             elif kind == 'amp':
                 ref['pmd2'][j] += par[0] ** 2
                 ref['pdl2'][j] += par[1] ** 2
@@ -730,7 +729,7 @@ def drive_merge(ctx, case):
     z = np.array(case['z'])
     zl = case['zl']
     zz, ll = RamanSolver._create_lumped_losses(z, np.array([v for _, v in zl]), np.array([p for p, _ in zl]))
-    impl = ','.join(f'{Fr(a)}:{Fr(b)}' for a, b in zip(zz.tolist(), ll.tolist()))
+    impl = [(Fr(a), b) for a, b in zip(zz.tolist(), ll.tolist())]
     # oracle: every lumped loss is in the merged grid exactly once
     prod_in = math.prod(v for _, v in zl)
     prod_out = math.prod(ll.tolist())
@@ -742,13 +741,9 @@ def drive_merge(ctx, case):
                 seen.add(p)
                 first *= v
         ctx.violation('lumped_once', f'merged grid carries a total lumped factor {prod_out}, the lumped losses multiply to {prod_in}',
-                      strip(case), duplicate_positions=len(set(pos)) != len(pos), dup_explained=close(first, prod_out, 1e-12))
+                      strip(case), duplicate_positions=len(set(pos)) != len(pos), f10_regression_signature=close(first, prod_out, 1e-12))
     term = 'run_merge ' + listlit([f'({qlit(p)}, {qlit(v)})' for p, v in zl]) + ' ' + listlit([qlit(x) for x in case['z']])
     return term, impl
-
-
-def norm_frs(s):
-    return ','.join(':'.join(str(Fr(x)) for x in item.split(':')) for item in s.split(',')) if s else s
 
 
 def drive_euler(ctx, case, sim):
@@ -808,10 +803,10 @@ def drive_raman_low(ctx, case, sim):
     bud = p['att_in'] + p['con_in'] + p['length'] * p['loss_coef'] + sum(l['loss'] for l in lumped) + p['con_out']
     a_np = p['loss_coef'] * 1e-3 / LOG10E10
     zz = np.unique(np.concatenate((np.array([l['position'] * 1e3 for l in lumped]), solver_z(p['length'] * 1e3, case['step']))))
-    bound_db = LOG10E10 * float(np.sum((a_np * np.diff(zz)) ** 2)) if case['method'] == 'numerical' else 0.0
+    bound_db = 2 * LOG10E10 * float(np.sum((a_np * np.diff(zz)) ** 2)) if case['method'] == 'numerical' else 0.0
     dev = max(abs(x - bud) for x in loss)
     ctx.count('raman_low_' + case['method'])
-    applicable = case['method'] != 'numerical' or float(np.max(a_np * np.diff(zz))) <= 0.5   # |ln(1-x)+x| <= x^2 needs x <= 1/2
+    applicable = case['method'] != 'numerical' or float(np.max(a_np * np.diff(zz))) <= 0.5   # Props/C05 euler_discretisation_bound: |ln(1-x)+x| <= 2x^2 for x <= 1/2
     if not applicable:
         ctx.count('raman_low_bound_not_applicable')
     if applicable and dev > bound_db + 1e-7:
@@ -820,14 +815,14 @@ def drive_raman_low(ctx, case, sim):
         expl = dup and max(abs(x - bud1) for x in loss) <= bound_db + 1e-7
         ctx.violation('raman_low_power', f"Raman on ({case['method']}, order {case['order']}, step {case['step']} m), "
                       f"{case['p']:.1e} W/channel: loss {loss} dB vs budget {bud:.9f} dB, deviation {dev:.3e} > "
-                      f"Euler bound {bound_db:.3e} + 1e-7", cs, duplicate_positions=dup, dup_explained=bool(expl))
+                      f"Euler bound {bound_db:.3e} + 1e-7", cs, duplicate_positions=dup, f10_regression_signature=bool(expl))
     if case['method'] != 'numerical' or len(zz) > 60:      # exact rationals grow by ~100 bits per grid step
         return None, None
     # exact zero-power closed form on the same grid (the solver grid is recomputed here with the same numpy expression)
     zl = listlit([f"({qlit(l['position'] * 1e3)}, {qlit(10 ** (-l['loss'] / 10))})" for l in lumped])
     alpha_q = qlit(a_np)
     z = listlit([qlit(x) for x in solver_z(p['length'] * 1e3, case['step']).tolist()])
-    term = f'join "," (map (fun a => qs (grid_factor a (merge_grid 1 {zl} {z}))) [{alpha_q}])'
+    term = f'join "," (map (fun a => qs (grid_factor a (merge_grid Qmult 1 {zl} {z}))) [{alpha_q}])'
     rest = p['att_in'] + p['con_in'] + p['con_out']
     return term, [x - rest for x in loss]
 
@@ -898,12 +893,6 @@ def drive_raman_pump(ctx, case, sim):
 
 
 # ------------------------------------------------------------------ run
-def is_f10(v):
-    """open known finding F10: two lumped losses at one position, the observed total is exactly the total of the
-    first loss of every distinct position — nothing else about the budget is excused"""
-    return v.get('key') in ('budget', 'lumped_once', 'raman_low_power') and v.get('duplicate_positions') is True and v.get('dup_explained') is True
-
-
 def run(ctx):
     logging.disable(logging.CRITICAL)
     np.seterr(all='ignore')
@@ -1018,8 +1007,11 @@ def run(ctx):
         if callable(how):
             how(ctx, c, impl, model)
         elif how == 'merge':
-            if norm_frs(model) != impl:
-                ctx.corr_break('corr:RamanSolver._create_lumped_losses', 'merged (z, lumped) grid differs', strip(c), impl=impl, model=norm_frs(model))
+            mg = [(Fr(item.split(':')[0]), float(Fr(item.split(':')[1]))) for item in model.split(',')] if model else []
+            same = len(mg) == len(impl) and all(a[0] == b[0] and close(a[1], b[1], 1e-12) for a, b in zip(impl, mg))
+            if not same:     # positions are selected, never computed: exact; accumulated values within float rounding
+                ctx.corr_break('corr:RamanSolver._create_lumped_losses', 'merged (z, lumped) grid differs', strip(c),
+                               impl=[(float(a), b) for a, b in impl], model=[(float(a), b) for a, b in mg])
         elif how == 'euler':
             mv = [float(Fr(x)) for x in model.split(',')]
             if len(mv) != len(impl) or any(not close(a, b, 1e-9, 1e-300) for a, b in zip(impl, mv)):
@@ -1052,4 +1044,4 @@ def run(ctx):
         'variety and the ROADM variety are read from the built elements)',
         'Raman solver beyond the Euler zero-power limit and first-order pump gain is compared numerically only (see notes)',
     ]
-    return common.finish(ctx, {F10: is_f10})
+    return common.finish(ctx)
